@@ -143,7 +143,7 @@ Refresh(snap, force) ==
        /\ moves' = p.moves
        /\ rebuilt' = p.rebuilt
        /\ ring' = p.ring
-       /\ act' = [name |-> "Refresh", snap |-> snap, force |-> force]
+       /\ act' = [name |-> "Refresh", snap |-> snap, force |-> force, rows |-> Rows(snap)]
 
 Next == \E snap \in Snapshots, force \in Forces : Refresh(snap, force)
 Spec == Init /\ [][Next]_vars
